@@ -156,6 +156,10 @@ theorem het_resolves_own (hashes : List Nat) (t : Het.Tab) (h : Het.build hashes
 theorem het_absent (hashes : List Nat) (t : Het.Tab) (full : Nat) (hn : full ∉ hashes) (m : Nat) :
     Het.resolve hashes full (Het.lookup t m full) = none := Het.resolve_absent hashes t full hn m
 
+/-- THE BUILDER ALWAYS COMPLETES THE TABLE (so `het_finds` and `het_resolves_own` speak about every file set): twice the
+    file count rounded up to a power of two always leaves a free slot -/
+theorem het_build_total (hashes : List Nat) : ∃ t, Het.build hashes = some t := Het.build_some hashes
+
 /-- the byte stored for a name is never the free-slot marker (the hypothesis the proof of `het_finds` forced: with the
     marker 0xFF the code used before repair D63 this is false for one name in 128) -/
 theorem het_name_byte_never_free (full : Nat) : Het.nameHash1 full ≠ Het.FREE := Het.nameHash1_ne_free full
